@@ -1,6 +1,8 @@
 #include <cstdio>
 #include <cstring>
 #include <iostream>
+#include <sys/resource.h>
+#include <unistd.h>
 
 #include "hll.hpp"
 #include "sim.hpp"
@@ -10,12 +12,29 @@ Hll g_hll_states;
 int driver_main(int argc, char **argv);
 }
 
-extern "C" __attribute__((used)) const char *__asan_default_options() { return "exitcode=77:detect_leaks=0:abort_on_error=0:allocator_may_return_null=1:detect_stack_use_after_return=0"; }
+extern "C" __attribute__((used)) const char *__asan_default_options() { return "exitcode=77:detect_leaks=0:abort_on_error=0:allocator_may_return_null=1:detect_stack_use_after_return=0:handle_abort=1:external_symbolizer_path=/usr/bin/llvm-symbolizer-14"; }
 extern "C" __attribute__((used)) const char *__ubsan_default_options() { return "halt_on_error=1:exitcode=78:print_stacktrace=0"; }
 
 using namespace sim;
 
+// The library's recursive-descent passes recurse once per token; sanitizer frames are several times larger
+// than normal ones.  Stack exhaustion on large inputs is outside what is sampled (DESIGN.md §9), so the
+// simulator gives itself a large stack instead of tripping over it at ~2000 tokens.
+static void ensure_big_stack(char **argv) {
+  const rlim_t want = 4UL << 30;
+  struct rlimit rl;
+  if (getrlimit(RLIMIT_STACK, &rl) != 0) return;
+  if (rl.rlim_cur != RLIM_INFINITY && rl.rlim_cur >= want) return;
+  if (rl.rlim_cur == RLIM_INFINITY) return;
+  if (getenv("THEOSIM_STACK_SET")) return;
+  rl.rlim_cur = (rl.rlim_max == RLIM_INFINITY || rl.rlim_max >= want) ? want : rl.rlim_max;
+  if (setrlimit(RLIMIT_STACK, &rl) != 0) return;
+  setenv("THEOSIM_STACK_SET", "1", 1);
+  execv("/proc/self/exe", argv);
+}
+
 int main(int argc, char **argv) {
+  ensure_big_stack(argv);
   if (argc < 2) { fprintf(stderr, "usage: theosim gen|run1|replay|check ...\n"); return 2; }
   std::string cmd = argv[1];
   try {
